@@ -114,7 +114,9 @@ class CubicBezier(ArcLengthMixin, Segment):
         """
         ss = []
         if self.length < degree:
-            return [Line(self[0], self[3])]
+            line = Line(self[0], self[3])
+            line._orig = self
+            return [line]
         samples = self.regularSample(self.length / degree)
         for i in range(1, len(samples)):
             line = Line(samples[i - 1], samples[i])
